@@ -242,17 +242,24 @@ def run_hetero(case):
     kind = case["kind"]
     site = f"heterogeneity/{kind}"
     funs = {}
+    # each heterogeneity function also reads the caller's *raw* value of another key, so an implementation that
+    # hands already-replaced parameters to later functions is visible
+    other = {"a": "c", "b": "a", "c": "b"}
+
+    def raw(p, k):
+        return jnp.reshape(p.eq_params[other[k]], (-1,))[0]
+
     for k, mode in zip(KEYS3, case["hmap"]):
         if mode == "none":
             funs[k] = None
         elif mode == "fun":
             j = KEYS3.index(k)
             if kind == "ode":
-                funs[k] = (lambda t, u, p, j=j, k=k: p.eq_params[k] * 0 + (0.2 + 0.1 * j) + (1.0 + j) * jnp.reshape(t, ()))
+                funs[k] = (lambda t, u, p, j=j, k=k: p.eq_params[k] * 0 + (0.2 + 0.1 * j) + (1.0 + j) * jnp.reshape(t, ()) + 0.1 * raw(p, k))
             elif kind == "statio":
-                funs[k] = (lambda x, u, p, j=j, k=k: p.eq_params[k] * 0 + (0.2 + 0.1 * j) + (1.0 + j) * x[0])
+                funs[k] = (lambda x, u, p, j=j, k=k: p.eq_params[k] * 0 + (0.2 + 0.1 * j) + (1.0 + j) * x[0] + 0.1 * raw(p, k))
             else:
-                funs[k] = (lambda t, x, u, p, j=j, k=k: p.eq_params[k] * 0 + (0.2 + 0.1 * j) + (1.0 + j) * t[0])
+                funs[k] = (lambda t, x, u, p, j=j, k=k: p.eq_params[k] * 0 + (0.2 + 0.1 * j) + (1.0 + j) * t[0] + 0.1 * raw(p, k))
     P = build(dict(kind=kind, site="equation", b=2), hetero=funs if funs or "none" in case["hmap"] else None)
     nv = L.nvar_of(kind, P["d"])
     pts = L.points(3, nv)
@@ -272,7 +279,8 @@ def run_hetero(case):
     for k, mode in zip(KEYS3, case["hmap"]):
         j = KEYS3.index(k)
         if mode == "fun":
-            vals[k] = np.stack([np.full(CALLER[k].size, (0.2 + 0.1 * j) + (1.0 + j) * z[0]) for z in pts])
+            rawv = float(CALLER[{"a": "c", "b": "a", "c": "b"}[k]].reshape(-1)[0])
+            vals[k] = np.stack([np.full(CALLER[k].size, (0.2 + 0.1 * j) + (1.0 + j) * z[0] + 0.1 * rawv) for z in pts])
         else:
             vals[k] = np.broadcast_to(CALLER[k].reshape(1, -1), (len(pts), CALLER[k].size))
     exp = res_formula(True, U, pts[:, 0], vals["a"][:, 0], vals["b"][:, 0], vals["c"])
